@@ -358,7 +358,25 @@ def qc_case(draw, tier="quick"):
             "qc_tinp": draw(st.sampled_from(["ndarray", "list_datetime", "list_timestamp", "series", "dtindex"]))}
 
 
+@st.composite
+def xarray_case(draw, tier="quick"):
+    """Every Dataset layout on the same table and config (axes present more often than not, so that the layouts'
+    different ways of finding z / lat / lon matter)."""
+    case = draw(stream_case(tier))
+    tbl = draw(sg.table(force_axes={"z": draw(st.integers(0, 3)) != 0, "latlon": draw(st.integers(0, 3)) != 0, "time": draw(st.integers(0, 5)) != 0}))
+    sids = list(tbl["cols"])
+    ctxs = []
+    for _ in range(draw(st.sampled_from([1, 1, 2]))):
+        streams = {}
+        for sid in draw(st.lists(st.sampled_from(sids), min_size=1, max_size=2, unique=True)):
+            streams[sid] = draw(st.lists(sg.test_entry(tbl), min_size=1, max_size=3, unique_by=lambda e: (e[0], e[1])))
+        ctxs.append({"window": draw(sg.window(tbl["t"])) if tbl["t"] is not None else None, "streams": streams})
+    case.update(table=tbl, contexts=ctxs, frontends=["xarray_coord", "xarray_var", "xarray_coord_axes", "xarray_other_dim"])
+    return case
+
+
 SUBS = [Sub("streams", stream_case, check_stream, quick=1600, thorough=24000),
+        Sub("xarray_layouts", xarray_case, check_stream, quick=500, thorough=8000),
         Sub("qcconfig", qc_case, check_stream, quick=600, thorough=8000)]
 REQUIRED_CLASSES = ["streams:window_excludes_row", "streams:row_on_ending", "streams:axis_absent", "streams:one_sided_window",
                     "streams:index=reversed", "streams:no_time_column"] + [f"streams:fe={f}" for f in FRONTENDS]
